@@ -146,6 +146,8 @@ struct Cfg {
     seeds: bool,
     /// nodes run on a real RaftWal and crashes restart from what it recovers
     wal: bool,
+    /// start only from the scripted 'two rival candidates of one term' state (5 voters, pre-vote)
+    rivals: bool,
 }
 
 fn name(i: u8) -> String {
@@ -353,7 +355,7 @@ impl RaftModel {
         }
         // Driver glue (trusted, stated in DESIGN): the synchronous start_election() reached from a
         // successful pre-vote builds a RequestVote and discards it; a complete driver broadcasts it.
-        if self.cfg.pre_vote && before.role != 1 && after.role == 1 && after.term == before.term + 1 && t.out.lock().is_empty() && reply.is_none() {
+        if self.cfg.pre_vote && after.role == 1 && after.term == before.term + 1 && t.out.lock().is_empty() && reply.is_none() {
             let (lli, llt) = after.log.last().map_or((0, 0), |(t, _)| (after.log.len() as u64, *t));
             for j in (0..self.cfg.n).filter(|j| *j != i) {
                 n.net.insert(Env { from: i, to: j, msg: Msg::RV { term: after.term, lli, llt } });
@@ -448,6 +450,9 @@ impl Model for RaftModel {
 
     fn init_states(&self) -> Vec<Sys> {
         let init = Sys { nodes: vec![NodeSt::initial(); self.cfg.n as usize], net: BTreeSet::new(), leaders: BTreeMap::new(), committed: BTreeMap::new(), dups_left: self.cfg.dups, crashes_left: self.cfg.crashes, second_leader_committed: false, violation: None };
+        if self.cfg.rivals {
+            return rival_seed(self, &init).into_iter().collect();
+        }
         let mut v = vec![init.clone()];
         if self.cfg.seeds {
             v.extend(seeds(self, &init));
@@ -564,6 +569,7 @@ impl Model for RaftModel {
             Property::always("safe", |_, s: &Sys| s.violation.is_none()),
             Property::sometimes("a leader is elected", |_, s: &Sys| !s.leaders.is_empty()),
             Property::sometimes("an entry is committed", |_, s: &Sys| !s.committed.is_empty()),
+            Property::sometimes("a rival candidate wins the contested term", |m: &RaftModel, s: &Sys| m.cfg.rivals && s.leaders.contains_key(&3)),
             Property::sometimes("a second leader commits", |_, s: &Sys| s.second_leader_committed),
         ]
     }
@@ -611,6 +617,78 @@ fn round_trip(m: &RaftModel, s: &Sys, l: u8, f: u8) -> Option<Sys> {
         s = m.next_state(&s, a)?;
     }
     Some(s)
+}
+
+/// drive candidate `c` through (pre-vote and) vote traffic with exactly the listed voters, stopping as
+/// soon as `until` holds; other traffic stays in flight
+fn campaign(m: &RaftModel, s: &Sys, c: u8, voters: &[u8], until: impl Fn(&NodeSt) -> bool) -> Option<Sys> {
+    let mut s = s.clone();
+    if m.cfg.pre_vote {
+        for v in voters {
+            s = m.next_state(&s, Act::Stale(*v)).unwrap_or(s);
+        }
+    }
+    s = m.next_state(&s, Act::Lapse(c))?;
+    for _ in 0..24 {
+        if until(&s.nodes[c as usize]) {
+            return Some(s);
+        }
+        let mut acts = vec![];
+        m.actions(&s, &mut acts);
+        let Some(a) = deliver_where(&acts, |e| (e.from == c && voters.contains(&e.to) && matches!(e.msg, Msg::PV { .. } | Msg::RV { .. })) || (voters.contains(&e.from) && e.to == c && matches!(e.msg, Msg::PVR { .. } | Msg::RVR { .. }))) else {
+            if std::env::var("VERIF_DEBUG").is_ok() {
+                eprintln!("campaign of n{c}: nothing left to deliver; candidate {:?}; voters {:?}; net {:?}", s.nodes[c as usize], voters.iter().map(|v| (s.nodes[*v as usize].term, s.nodes[*v as usize].stale, s.nodes[*v as usize].leader, s.nodes[*v as usize].failures.clone())).collect::<Vec<_>>(), s.net);
+            }
+            return None;
+        };
+        s = m.next_state(&s, a)?;
+    }
+    until(&s.nodes[c as usize]).then_some(s)
+}
+/// 5 voters: n0 led term 1 (votes of n1, n2), was deposed by n4's term-2 candidacy, and now n0 and n4 are
+/// both candidates of term 3 with their RequestVotes in flight. Every step is a real handler call.
+fn rival_seed(m: &RaftModel, init: &Sys) -> Option<Sys> {
+    let dbg = |what: &str| {
+        if std::env::var("VERIF_DEBUG").is_ok() {
+            eprintln!("rival seed: step '{what}' failed");
+        }
+    };
+    let Some(s) = campaign(m, init, 0, &[1, 2], |n| n.role == 2) else { dbg("n0 wins term 1"); return None };
+    let mut s = s;
+    s.net.clear();
+    // everybody hears one heartbeat of n0 (learns term 1)
+    let Some(mut s) = m.next_state(&s, Act::Heartbeat(0)) else { dbg("heartbeat"); return None };
+    for to in 1..5u8 {
+        let mut acts = vec![];
+        m.actions(&s, &mut acts);
+        let Some(n) = deliver_where(&acts, |e| e.from == 0 && e.to == to && matches!(e.msg, Msg::AE { .. })).and_then(|a| m.next_state(&s, a)) else { dbg("heartbeat delivery"); return None };
+        s = n;
+    }
+    s.net.clear();
+    // n4 campaigns for term 2 (pre-votes of n2, n3); its RequestVote deposes n0
+    let Some(s) = campaign(m, &s, 4, &[2, 3], |n| n.role == 1 && n.term == 2) else { dbg("n4 candidate of term 2"); return None };
+    // n4's RequestVote reaches everybody (all learn term 2, n0 steps down); the answers are lost
+    let mut s = s;
+    for to in 0..4u8 {
+        let mut acts = vec![];
+        m.actions(&s, &mut acts);
+        let Some(n) = deliver_where(&acts, |e| e.from == 4 && e.to == to && matches!(e.msg, Msg::RV { .. })).and_then(|a| m.next_state(&s, a)) else { dbg("n4's RequestVote delivery"); return None };
+        s = n;
+    }
+    if s.nodes[0].role == 2 {
+        dbg("n0 steps down");
+        return None;
+    }
+    s.net.clear();
+    // n0 campaigns for term 3 (pre-votes of n1, n3), then n4 does (pre-votes of n2, n3)
+    let Some(mut s) = campaign(m, &s, 0, &[1, 3], |n| n.role == 1 && n.term == 3) else { dbg("n0 candidate of term 3"); return None };
+    s.net.retain(|e| matches!(e.msg, Msg::RV { .. }));
+    let Some(mut s) = campaign(m, &s, 4, &[2, 3], |n| n.role == 1 && n.term == 3) else { dbg("n4 candidate of term 3"); return None };
+    s.net.retain(|e| matches!(e.msg, Msg::RV { term: 3, .. }));
+    if std::env::var("VERIF_DEBUG").is_ok() {
+        eprintln!("rival seed: n0 {:?}\n            n4 {:?}\n            net {:?}", s.nodes[0], s.nodes[4], s.net);
+    }
+    s.violation.is_none().then_some(s)
 }
 fn seeds(m: &RaftModel, init: &Sys) -> Vec<Sys> {
     let _ = run_script;
@@ -715,16 +793,18 @@ fn main() {
     rep.assume("handlers are atomic (cluster.rs runs one receive loop); in the 'on real WAL' configurations every node runs on a real RaftWal: after each transition the harness reads back what RaftRecoveryState recovers from the records the production code appended, and a crash restarts the node from that (term, vote) and its log; in the other configurations a crash keeps exactly the in-memory (term, vote, log) (byte-level WAL fidelity is C10's job)");
     rep.assume("trusted driver glue: after a successful pre-vote the synchronous start_election() discards the RequestVote it builds; the harness broadcasts that message as start_election_async would");
     let mut cfgs: Vec<(String, Cfg, usize)> = vec![];
-    let base = Cfg { n: 3, pre_vote: false, fast_path: false, tiebreak: false, max_term: 2, max_log: 2, dups: 1, crashes: 1, seeds: true, wal: false };
+    let base = Cfg { n: 3, pre_vote: false, fast_path: false, tiebreak: false, max_term: 2, max_log: 2, dups: 1, crashes: 1, seeds: true, wal: false, rivals: false };
     if thorough {
         for (pv, fp, tb) in [(false, false, false), (true, false, false), (false, true, false), (false, false, true), (true, true, true)] {
             cfgs.push((format!("n3 prevote={pv} fastpath={fp} tiebreak={tb} term<=3 log<=3 dup<=2 crash<=2"), Cfg { pre_vote: pv, fast_path: fp, tiebreak: tb, max_term: 3, max_log: 3, dups: 2, crashes: 2, ..base.clone() }, 10));
         }
         cfgs.push(("n5 prevote=false term<=2 log<=1 dup<=0 crash<=1".into(), Cfg { n: 5, max_term: 2, max_log: 1, dups: 0, crashes: 1, ..base.clone() }, 9));
+        cfgs.push(("n5 rival candidates of term 3 (one a deposed leader) prevote=true term<=3 log<=0".into(), Cfg { n: 5, pre_vote: true, max_term: 3, max_log: 0, dups: 0, crashes: 0, rivals: true, ..base.clone() }, 10));
         cfgs.push(("n3 on real WAL prevote=false term<=2 log<=2 dup<=1 crash<=2".into(), Cfg { crashes: 2, wal: true, ..base.clone() }, 10));
     } else {
         cfgs.push(("n3 prevote=false term<=3 log<=3 dup<=1 crash<=1".into(), Cfg { max_term: 3, max_log: 3, ..base.clone() }, 9));
         cfgs.push(("n3 on real WAL prevote=false term<=2 log<=1 dup<=0 crash<=1".into(), Cfg { max_log: 1, dups: 0, wal: true, ..base.clone() }, 9));
+        cfgs.push(("n5 rival candidates of term 3 (one a deposed leader) prevote=true term<=3 log<=0".into(), Cfg { n: 5, pre_vote: true, max_term: 3, max_log: 0, dups: 0, crashes: 0, rivals: true, ..base.clone() }, 8));
         cfgs.push(("n3 prevote=true term<=2 log<=2 dup<=1 crash<=0".into(), Cfg { pre_vote: true, crashes: 0, ..base.clone() }, 10));
     }
     let only = rep.args.flag("cfg");
@@ -752,7 +832,8 @@ fn main() {
             let kind = path.last().cloned().unwrap_or_default();
             rep.violation(format!("c01:{}", violation_kind(&cfg, path)), format!("{label}: safety violated after {msg}; last action {kind}"), json!({"cfg": label, "actions": path}));
         }
-        for w in ["a leader is elected", "an entry is committed"] {
+        let required: &[&str] = if cfg.rivals { &["a rival candidate wins the contested term"] } else { &["a leader is elected", "an entry is committed"] };
+        for w in required.iter().copied() {
             if !r.discoveries.contains_key(w) && !r.discoveries.contains_key("safe") {
                 rep.machinery(format!("{label}: no witness for '{w}' (vacuous search)"));
             }
@@ -760,6 +841,8 @@ fn main() {
         if rep.coverage.get("samples").is_none() {
             if let Some(p) = r.discoveries.get("an entry is committed") {
                 rep.sample(json!({"cfg": label, "witness_path_entry_committed": p}));
+            } else if let Some(p) = r.discoveries.get("a rival candidate wins the contested term") {
+                rep.sample(json!({"cfg": label, "witness_path_rival_wins": p}));
             }
         }
     }
